@@ -345,7 +345,10 @@ func SimClientIdByAddr(addr string) int64 {
 // without going through the capture protocol. Teardown only: it lets commands
 // that block forever end so that a finished simulated run leaks no goroutine.
 func SimForceUnblockAll() {
-	clientsMu.Lock()
+	if !clientsMu.TryLock() {
+		// a wedged goroutine holds the registry: leave it (the run leaks goroutines)
+		return
+	}
 	defer clientsMu.Unlock()
 	for _, cs := range clients {
 		select {
